@@ -358,6 +358,14 @@ def run(ck, facts):
         a = rt.adt(name)
         ck.expect(a["repr_transparent"], "R6", name + "/repr(transparent)", "", "%s is not repr(transparent) over its byte view" % name, C.loc(a))
         ck.expect(not a["variants"][0]["fields"][0]["vis"].startswith("Public"), "R6", name + ".0/private", "", "inner view is public: unvalidated bytes can be wrapped as str", C.loc(a))
+    if isinstance(ck, C.Check):
+        shares(ck, facts)
+
+
+def shares(ck, facts):
+    # JS: a primitive slice is copied element by element through the typed array of the element's wasm32 type (C08.R4: kind and width per primitive)
+    import c08
+    c08.run(C.SubCheck(ck, "R7", "", ["R4"]), facts)
 
 
 def run_thorough(ck, facts):
